@@ -220,6 +220,7 @@ def rule_del_range(ctx: RuleContext, p: Program, rid: str) -> None:
 def run(ctx: RuleContext, p: Program) -> None:
     tcs = build_tree_classes(p)
     ctx.try_rule(seps.rule_sep_prov, p, 'SEP-PROV')
+    ctx.try_rule(seps.rule_sep_fresh, p, 'SEP-FRESH')
     ctx.try_rule(rule_opt_sib, p, 'OPT-SIB')
     ctx.try_rule(gen.rule_pivot, p, tcs, 'PIVOT')
     ctx.require_min('PIVOT', 80)
